@@ -24,7 +24,7 @@ CLAIMED = {
             "mutated => paired change event, no event without mutation; guard/store/event value agreement; the group "
             "re-evaluation and contact-refresh pairs in the engine. Also: an Apply that empties a list and rebuilds it confirms every change report by a before/after comparison (reset-and-rebuild); the Contact methods that take a URN compare by Identity() on both sides everywhere and ContactURN.Equal compares the complete raw URN. "
             "Does not decide that replaying events reproduces "
-            "the contact value, nor value-level idempotence (e.g. URN 'set' with an equal list).",
+            "the contact value, nor value-level idempotence beyond the reset-and-rebuild shape.",
             "who-may-call + path-sensitive typestate dataflow over go/ssa (ESP-style), value-provenance comparison",
             "DESIGN.md §4 C03"),
     "C20": ("Structural necessary conditions of 'inspection over-approximates execution': Run.SaveResult has exactly two callers "
@@ -45,10 +45,10 @@ CLAIMED = {
             "path before calling the wrapped function and every constant index/slice of args in the 120 registered functions "
             "and tests is below the registered minimum or guarded; unchecked type assertions are guarded by a type test, IsXError, "
             "or same-type call sites; constant-offset string slicing and constant slice indexes are within a length established on "
-            "every path; each of the 111 computed indexes and slice bounds is shown non-negative and within the length of the value "
+            "every path; each of the 112 computed indexes and slice bounds is shown non-negative and within the length of the value "
             "it indexes on every path (comparison with len of the same or a provably as-long value, range index, length getters, "
             "len-k, min, negative-index normalisation, sort's contract, index parameters forwarded to their call sites) or is one of "
-            "16 listed sites with its reason. Also: every method invoked on an interface value of type XValue (null is a nil XValue) is on a value produced non-nil or under a nil/IsNil guard (also through parameters of unexported helpers). "
+            "15 listed sites with its reason. Also: every method invoked on an interface value of type XValue (null is a nil XValue) is on a value produced non-nil or under a nil/IsNil guard (also through parameters of unexported helpers). "
             "Does not decide termination inside libraries for guarded operands, numeric results, "
             "or the listed sites beyond the stated argument.",
             "guard-dominance (control-dependence) check on partial-call operands, arity-table vs index agreement, path typestate on the arity wrapper",
@@ -62,8 +62,7 @@ CLAIMED = {
             "of every migrated legacy node and exit is a field of the legacy definition; every legacy action constructor writes a "
             "registered action type, only keys that are json fields of that action's struct and every field it requires; template-path "
             "wildcards agree between producer and consumer. Also: a required action field with an enumerating validator is written as a constant or defaulted to one on the empty edge at every call site; a truncation guard measures the value it cuts with a bound not above the limit; every slice/map-of-struct-pointers member of a definition struct carries dive,required (null elements are rejected at load). "
-            "Does not decide that migrated definitions load (in particular whether a "
-            "required text value can be empty), graph preservation, idempotence as a value-level fact, or equivalence of rewritten templates.",
+            "Does not decide that migrated definitions load (whether a required text value without an enumerating validator can be empty is not decided), graph preservation, idempotence as a value-level fact, or equivalence of rewritten templates.",
             "registry/table agreement (AST constants), SSA shape check of migrate(), guard-dominance (control dependence) for nil/length/type tests, interprocedural nullable-map analysis",
             "DESIGN.md §4 C16"),
     "C01": ("Local steps of the session state-machine invariant, decided on the SSA/AST form of the engine: status alphabet and "
